@@ -51,7 +51,20 @@ RULE = (
     "(800..2400 stored nonzeros on ~1800 cells: every operation that matches two subscript lists or the list of all "
     "subscripts), a few per run, three stored orders each; cell huge: modes longer than 2**40 / 2**53 / 2**60, more "
     "than 2**63 cells, sparse results compared as sets of entries.  (several live objects) for the first stored order "
-    "the operands and the returned object are edited in place in turn; every other one must stay what it was."
+    "the operands and the returned object are edited in place in turn; every other one must stay what it was.  "
+    "Round 4: (presentation) one operand in three is also given with its subscripts in int32 / int16 / uint8 / uint16 / "
+    "uint64, taken from a scipy COO matrix (2-way), as a Fortran-ordered / strided / read-only array, with the shape as "
+    "list / array / int32 / uint64 scalars; one case in four gives subscript arrays, mode lists and mode numbers in "
+    "another integer dtype, or (mode lists documented as OneDArray) as list / tuple / bare int; float data also held "
+    "in float32 (values a float32 holds exactly; accumulations judged with the float32 eps).  The first run of a case "
+    "uses the library's favourite forms, the later runs the other presentation: the existing order-independence "
+    "comparison then also demands presentation-independence.  (environment) one case in six executes its odd runs with "
+    "the root logger at DEBUG (logging.disable lifted, NullHandler).  (rejected requests) cell rejected: write histories "
+    "of 2..5 assignments with 1..2 rejected requests inside (12 kinds, see the section comment), judged after every "
+    "rejected step (well-formed, same array, same shape, same stored entries) and at the end against the same history "
+    "without the rejected steps, bit for bit; ill-formed calls of the other operations (one ill-formed argument, "
+    "broadcast-compatible where possible) and rejected sptenmat assignments: operands unchanged after the exception; "
+    "every operation of every cell: if it raises, its sparse operands are afterwards what they were."
 )
 ASSUMPTIONS = [
     "operands are well-formed sptensors (distinct in-range integer subscripts, nonzero values) built with the plain "
@@ -81,6 +94,10 @@ ASSUMPTIONS = [
     "overflows depends on the order of summation, so entries that are infinite / NaN for either order are not compared "
     "for accumulating operations; where float sums are compared with a tolerance a result handed back sparse for one "
     "order and dense for another (density switch on a value that is zero within the tolerance) is the same outcome",
+    "round 4: only requests the unchanged library rejects count as rejected requests; a generated ill-formed request "
+    "that is accepted ends the case unjudged (labels not-rejected-*): whether it must be rejected is C04 / C19",
+    "round 4: values are always handed over as a column: a flat vector is rejected by the constructors, from_aggregator "
+    "and S[M] = V, and accepted by sptenmat[r, c] = v only when nothing is inserted into a non-empty receiver",
     "large cases: parameters are drawn for a small proxy operand that is part of the large one; the dense operand of "
     "large cases comes from a seed; huge cases: integer values only (exact comparison)",
 ]
@@ -97,18 +114,71 @@ def lex_cells(shape):
     return [list(s) for s in itertools.product(*[range(n) for n in shape])]
 
 
-def build_sp(shape, ent, perm=None):
+SUBS_DTYPES = ["int32", "int32", "int32", "int16", "uint8", "uint16", "uint64", "int64"]
+
+
+@st.composite
+def presentation(draw, order):
+    """round 4: how a caller hands over the same operand - subscripts in another integer dtype (scipy COO matrices
+    carry int32 coordinates), taken from a scipy COO matrix (2-way), as a Fortran-ordered / strided / read-only
+    array, the shape as a list / an array / numpy integers of another width"""
+    return dict(subs_dtype=draw(st.sampled_from(SUBS_DTYPES)),
+                via=draw(st.sampled_from(["ctor", "ctor", "coo"])) if order == 2 else "ctor",
+                layout=draw(st.sampled_from(["C", "F", "strided", "readonly"])),
+                shape_form=draw(st.sampled_from(["tuple", "list", "array", "int32", "uint64"])))
+
+
+def _shape_in_form(shape, form):
+    shape = [int(v) for v in shape]
+    if form == "list":
+        return list(shape)
+    if form == "array":
+        return np.array(shape)
+    if form in ("int32", "uint64"):
+        return tuple(np.dtype(form).type(v) for v in shape)
+    return tuple(shape)
+
+
+def build_sp(shape, ent, perm=None, alt=False):
     n = len(ent["subs"])
-    if ent.get("npshape"):  # the shape as numpy integers (what a grown tensor reports and hands on)
-        shape = [np.int64(v) for v in shape]
+    pres = ent.get("pres") if alt else None
+    if pres is not None:
+        shape_arg = _shape_in_form(shape, pres["shape_form"])
+    elif ent.get("npshape"):  # the shape as numpy integers (what a grown tensor reports and hands on)
+        shape_arg = tuple(np.int64(v) for v in shape)
+    else:
+        shape_arg = tuple(shape)
     if n == 0:
-        return ttb.sptensor(shape=tuple(shape))
+        return ttb.sptensor(shape=shape_arg)
     idx = range(n) if perm is None else perm
     subs = np.array([ent["subs"][i] for i in idx], dtype=int).reshape(n, len(shape))
     vals = np.array([ent["vals"][i] for i in idx], dtype=float).reshape(n, 1)
-    if ent.get("dtype", "float64") != "float64":  # integer-valued data held in an integer dtype
+    if ent.get("dtype", "float64") != "float64":  # integer-valued data held in an integer dtype / float32 data
         vals = vals.astype(ent["dtype"])
-    return ttb.sptensor(subs, vals, tuple(shape))
+    if pres is not None:
+        if pres["via"] == "coo" and len(shape) == 2:
+            import scipy.sparse
+
+            M = scipy.sparse.coo_matrix((vals[:, 0], (subs[:, 0], subs[:, 1])), shape=tuple(int(v) for v in shape))
+            subs, vals = np.column_stack((M.row, M.col)), M.data.reshape(-1, 1)
+            if pres["shape_form"] == "tuple":
+                shape_arg = M.shape
+        else:
+            subs = subs.astype(pres["subs_dtype"])
+        if pres["layout"] == "F":
+            subs = np.asfortranarray(subs)
+        elif pres["layout"] == "strided":
+            wide = np.zeros((n, 2 * len(shape)), dtype=subs.dtype)
+            wide[:, ::2] = subs
+            subs = wide[:, ::2]
+            tall = np.zeros((2 * n, 1), dtype=vals.dtype)
+            tall[::2] = vals
+            vals = tall[::2]
+        elif pres["layout"] == "readonly":
+            subs.setflags(write=False)
+            vals = vals.copy()
+            vals.setflags(write=False)
+    return ttb.sptensor(subs, vals, shape_arg)
 
 
 def dense_of(shape, ent):
@@ -408,7 +478,8 @@ def tolerance(O, case):
         else:
             scale *= mag(v)
     cells = ref.prod(case["shape"]) * 8
-    tol = 64.0 * cells * EPS * scale
+    eps = float(np.finfo(np.float32).eps) if any(case[k].get("dtype") == "float32" for k in O.keys) else EPS
+    tol = 64.0 * cells * eps * scale
     # products of magnitudes beyond 1e308: everything overflows; products below 1e-308 are denormal, where a fused
     # multiply-add rounds to the absolute grid 5e-324 in an order-dependent way: an absolute floor far below every
     # normal number
@@ -418,6 +489,9 @@ def tolerance(O, case):
 # --------------------------------------------------------------------------
 # operation registry
 # --------------------------------------------------------------------------
+
+
+_CUR = {"ctx": None, "strided": False}
 
 
 class Op:
@@ -447,7 +521,41 @@ def default_shapes(tier, min_order=1):
 
 
 def arr(x, dtype=float):
-    return np.array(x, dtype=dtype)
+    a = np.array(x, dtype=dtype)
+    if _CUR.get("strided") and a.ndim >= 1 and a.size:
+        # round 4: the vectors / matrices of a call as read-only views with a stride (every second column of a wider array)
+        wide = np.zeros(a.shape[:-1] + (2 * a.shape[-1],), dtype=a.dtype)
+        wide[..., ::2] = a
+        a = wide[..., ::2]
+        a.setflags(write=False)
+    return a
+
+
+SEQ_FORMS = ("list", "tuple", "bare-int")
+
+
+def iarr(p, x, seq_ok=False):
+    """an index / mode / subscript array; round 4: in the integer dtype p['idt'] when the run presents its arguments
+    the other way (int32, uint8, uint16, uint64; negative entries keep int64)"""
+    a = np.array(x, dtype=int)
+    idt = p.get("idt") if isinstance(p, dict) else None
+    if idt in SEQ_FORMS:  # a mode list documented as OneDArray: list / tuple / bare int for a single mode
+        if not seq_ok or a.ndim != 1:
+            return a
+        if idt == "bare-int":
+            return int(a[0]) if a.size == 1 else a
+        return [int(v) for v in a] if idt == "list" else tuple(int(v) for v in a)
+    if idt and not (a.size and a.min() < 0 and np.dtype(idt).kind == "u"):
+        a = a.astype(idt)
+    return a
+
+
+def iint(p, v):
+    """a mode number / index: a numpy integer scalar of dtype p['idt'] in the other presentation"""
+    idt = p.get("idt") if isinstance(p, dict) else None
+    if idt and idt not in SEQ_FORMS and v >= 0:
+        return np.dtype(idt).type(v)
+    return v
 
 
 def fl(draw, n, vkind, nonzero=False):
@@ -511,7 +619,7 @@ def _p_permute(draw, tier, shape, vkind, case):
     return dict(perm=list(draw(st.permutations(range(len(shape))))))
 
 
-op("structure", "permute", lambda X, p, c: X["a"].permute(arr(p["perm"], int)), params=_p_permute)
+op("structure", "permute", lambda X, p, c: X["a"].permute(iarr(p, p["perm"], seq_ok=True)), params=_p_permute)
 
 
 @st.composite
@@ -525,7 +633,7 @@ def _p_reshape(draw, tier, shape, vkind, case):
 
 op("structure", "reshape",
    lambda X, p, c: X["a"].reshape(tuple(p["new"])) if p["old_modes"] is None else X["a"].reshape(
-       tuple(p["new"]), arr(p["old_modes"], int)), params=_p_reshape)
+       tuple(p["new"]), iarr(p, p["old_modes"])), params=_p_reshape)
 
 ELEMFUNS = {
     "plus1": lambda v: v + 1,
@@ -621,8 +729,8 @@ def _p_sptenmat_ctor(draw, tier, shape, vkind, case):
 def _sptenmat_ctor(X, p, c):
     subs, vals = X["a"]
     if subs.shape[0] == 0:
-        return ttb.sptenmat(None, None, arr(p["rdims"], int), arr(p["cdims"], int), tuple(p["tshape"]))
-    return ttb.sptenmat(subs, vals, arr(p["rdims"], int), arr(p["cdims"], int), tuple(p["tshape"]))
+        return ttb.sptenmat(None, None, iarr(p, p["rdims"]), iarr(p, p["cdims"]), tuple(p["tshape"]))
+    return ttb.sptenmat(subs, vals, iarr(p, p["rdims"]), iarr(p, p["cdims"]), tuple(p["tshape"]))
 
 
 op("construct", "sptenmat()", _sptenmat_ctor, params=_p_sptenmat_ctor, combine=True, accum=True,
@@ -695,12 +803,12 @@ def _ttv(X, p, c):
     vecs = [arr(v) for v in p["vecs"]]
     f = p["form"]
     if f == "int":
-        return X["a"].ttv(vecs[0], p["dims"])
+        return X["a"].ttv(vecs[0], iint(p, p["dims"]))
     if f == "all":
         return X["a"].ttv(vecs)
     if f == "exclude":
-        return X["a"].ttv(vecs, exclude_dims=arr(p["dims"], int))
-    return X["a"].ttv(vecs, arr(p["dims"], int))
+        return X["a"].ttv(vecs, exclude_dims=iarr(p, p["dims"], seq_ok=True))
+    return X["a"].ttv(vecs, iarr(p, p["dims"], seq_ok=True))
 
 
 op("ttv", "ttv", _ttv, params=_p_ttv, combine=True, accum=True)
@@ -733,10 +841,10 @@ def _ttm(X, p, c):
     mats = [arr(v) for v in p["mats"]]
     f = p["form"]
     if f == "int":
-        return X["a"].ttm(mats[0], p["dims"], transpose=p["transpose"])
+        return X["a"].ttm(mats[0], iint(p, p["dims"]), transpose=p["transpose"])
     if f == "exclude":
-        return X["a"].ttm(mats, exclude_dims=arr(p["dims"], int), transpose=p["transpose"])
-    return X["a"].ttm(mats, arr(p["dims"], int), transpose=p["transpose"])
+        return X["a"].ttm(mats, exclude_dims=iarr(p, p["dims"], seq_ok=True), transpose=p["transpose"])
+    return X["a"].ttm(mats, iarr(p, p["dims"], seq_ok=True), transpose=p["transpose"])
 
 
 op("ttm", "ttm", _ttm, params=_p_ttm, combine=True, accum=True)
@@ -762,7 +870,7 @@ def _p_contract(draw, tier, shape, vkind, case):
     return dict(i=i, j=j)
 
 
-op("contract", "contract", lambda X, p, c: X["a"].contract(p["i"], p["j"]), params=_p_contract, combine=True,
+op("contract", "contract", lambda X, p, c: X["a"].contract(iint(p, p["i"]), iint(p, p["j"])), params=_p_contract, combine=True,
    accum=True, shapes=_contract_shapes)
 
 COLLAPSE = {"sum": sum, "np.sum": np.sum, "max": np.max, "min": np.min}
@@ -777,7 +885,7 @@ def _p_collapse(draw, tier, shape, vkind, case):
 
 
 def _collapse(X, p, c):
-    d = None if p["dims"] is None else arr(p["dims"], int)
+    d = None if p["dims"] is None else iarr(p, p["dims"], seq_ok=True)
     if p["fun"] == "default":
         return X["a"].collapse(d)
     return X["a"].collapse(d, COLLAPSE[p["fun"]])
@@ -792,7 +900,7 @@ def _p_scale_arr(draw, tier, shape, vkind, case):
     return dict(dims=[d], factor=fl(draw, shape[d], vkind))
 
 
-op("scale", "scale-ndarray", lambda X, p, c: X["a"].scale(arr(p["factor"]), arr(p["dims"], int)),
+op("scale", "scale-ndarray", lambda X, p, c: X["a"].scale(arr(p["factor"]), iarr(p, p["dims"], seq_ok=True)),
    params=_p_scale_arr)
 
 
@@ -805,7 +913,7 @@ def _p_scale_tensor(draw, tier, shape, vkind, case):
 
 op("scale", "scale-tensor",
    lambda X, p, c: X["a"].scale(ttb.tensor(gen.arr_F(p["fshape"], p["factor"]).copy(order="F"), tuple(p["fshape"])),
-                                arr(p["dims"], int)), params=_p_scale_tensor)
+                                iarr(p, p["dims"])), params=_p_scale_tensor)
 
 
 @st.composite
@@ -814,7 +922,7 @@ def _p_scale_sp(draw, tier, shape, vkind, case):
     return dict(dims=dims, fshape=[shape[d] for d in dims])
 
 
-op("scale", "scale-sptensor", lambda X, p, c: X["a"].scale(X["b"], arr(p["dims"], int)), params=_p_scale_sp,
+op("scale", "scale-sptensor", lambda X, p, c: X["a"].scale(X["b"], iarr(p, p["dims"], seq_ok=True)), params=_p_scale_sp,
    keys=("a", "b"), bshape=lambda case: case["p"]["fshape"])
 
 
@@ -829,8 +937,8 @@ def _p_mttkrp(draw, tier, shape, vkind, case):
 def _mttkrp(X, p, c):
     U = [arr(u) for u in p["U"]]
     if p["weights"] is not None:
-        return X["a"].mttkrp(ttb.ktensor(U, arr(p["weights"])), p["n"])
-    return X["a"].mttkrp(U, p["n"])
+        return X["a"].mttkrp(ttb.ktensor(U, arr(p["weights"])), iint(p, p["n"]))
+    return X["a"].mttkrp(U, iint(p, p["n"]))
 
 
 op("mttkrp", "mttkrp", _mttkrp, params=_p_mttkrp, accum=True,
@@ -987,10 +1095,10 @@ def _p_subs(draw, tier, shape, vkind, case):
     return dict(subs=rows)
 
 
-op("read", "extract", lambda X, p, c: X["a"].extract(arr(p["subs"], int).reshape(len(p["subs"]), len(c["shape"]))),
+op("read", "extract", lambda X, p, c: X["a"].extract(iarr(p, p["subs"]).reshape(len(p["subs"]), len(c["shape"]))),
    params=_p_subs)
 op("read", "getitem-subs",
-   lambda X, p, c: X["a"][arr(p["subs"], int).reshape(len(p["subs"]), len(c["shape"]))], params=_p_subs)
+   lambda X, p, c: X["a"][iarr(p, p["subs"]).reshape(len(p["subs"]), len(c["shape"]))], params=_p_subs)
 
 
 @st.composite
@@ -1013,7 +1121,7 @@ def _getitem_linear(X, p, c):
         return X["a"][k]
     if f == "slice":
         return X["a"][slice(k[0], k[1], k[2])]
-    return X["a"][arr(k, int)] if f == "array" else X["a"][list(k)]
+    return X["a"][iarr(p, k)] if f == "array" else X["a"][list(k)]
 
 
 op("read", "getitem-linear", _getitem_linear, params=_p_linear)
@@ -1050,7 +1158,7 @@ def _region_key(p):
     out = []
     for k in p["key"]:
         f = k["f"]
-        out.append(k["v"] if f in ("int", "neg-int") else (slice(None) if f == "full" else (
+        out.append(iint(p, k["v"]) if f in ("int", "neg-int") else (slice(None) if f == "full" else (
             slice(k["v"][0], k["v"][1]) if f == "slice" else (
                 slice(k["v"][0], k["v"][1], k["v"][2]) if f in ("step", "empty", "rev") else list(k["v"])))))
     return tuple(out)
@@ -1139,7 +1247,7 @@ def _p_set_subs(draw, tier, shape, vkind, case):
 
 def _do_set_subs(S, p):
     n = len(p["subs"])
-    M = arr(p["subs"], int).reshape(n, len(p["subs"][0]))
+    M = iarr(p, p["subs"]).reshape(n, len(p["subs"][0]))
     if p["form"] == "scalar":
         v = p["vals"][0]
         S[M] = int(v) if p.get("as_int") else float(v)
@@ -1193,7 +1301,7 @@ def _set_key(p):
     for k in p["key"]:
         f = k["f"]
         if f == "int":
-            out.append(k["v"])
+            out.append(iint(p, k["v"]))
         elif f == "full":
             out.append(slice(None))
         elif f in ("slice", "empty"):
@@ -1201,7 +1309,7 @@ def _set_key(p):
         elif f == "step":
             out.append(slice(k["v"][0], k["v"][1], k["v"][2]))
         else:
-            out.append(arr(k["v"], int) if p.get("list_as_array") else list(k["v"]))
+            out.append(iarr(p, k["v"]) if p.get("list_as_array") else list(k["v"]))
     return tuple(out)
 
 
@@ -1239,7 +1347,7 @@ def _p_set_element(draw, tier, shape, vkind, case):
 
 
 def _do_set_element(S, p, c):
-    key = tuple(i - n if p["negative"] else i for i, n in zip(p["sub"], c["shape"]))
+    key = tuple(i - n if p["negative"] else iint(p, i) for i, n in zip(p["sub"], c["shape"]))
     if len(key) == 1:
         key = key[0]  # a 1-way tensor takes S[i] = v
     S[key] = int(p["value"]) if p["as_int"] else float(p["value"])
@@ -1261,15 +1369,20 @@ def _p_set_seq(draw, tier, shape, vkind, case):
     return dict(steps=steps)
 
 
+def _do_step(S, stp, p, c):
+    sp = dict(stp["p"], idt=p["idt"]) if p.get("idt") else stp["p"]
+    if stp["kind"] == "subs":
+        _do_set_subs(S, sp)
+    elif stp["kind"] == "region":
+        _do_set_region(S, sp)
+    else:
+        _do_set_element(S, sp, c)
+
+
 def _do_set_seq(X, p, c):
     S = X["a"]
     for stp in p["steps"]:
-        if stp["kind"] == "subs":
-            _do_set_subs(S, stp["p"])
-        elif stp["kind"] == "region":
-            _do_set_region(S, stp["p"])
-        else:
-            _do_set_element(S, stp["p"], c)
+        _do_step(S, stp, p, c)
     return S
 
 
@@ -1289,19 +1402,372 @@ def _p_set_sptenmat(draw, tier, shape, vkind, case):
     else:
         r = sorted(draw(st.sets(st.integers(0, nr - 1), min_size=1, max_size=min(nr, 3))))
         cc = sorted(draw(st.sets(st.integers(0, nc - 1), min_size=1, max_size=min(nc, 3))))
-    return dict(split=spec, form=form, rows=r, cols=cc, value=draw(gen.values(vkind, nonzero=True)))
+    return dict(split=spec, form=form, rows=r, cols=cc, value=draw(gen.values(vkind, nonzero=True)),
+                vector=form == "block" and draw(st.booleans()))
 
 
 def _do_set_sptenmat(X, p, c):
     M = X["a"].to_sptenmat(**_kw(p))
     if p["form"] == "element":
-        M[p["rows"][0], p["cols"][0]] = float(p["value"])
+        M[iint(p, p["rows"][0]), iint(p, p["cols"][0])] = float(p["value"])
+    elif p.get("vector"):
+        # round 4: one value per (row, column) pair, as a column (a flat vector is not accepted for every receiver)
+        v = np.array([float(p["value"]) * (k + 1) for k in range(len(p["rows"]) * len(p["cols"]))])
+        M[iarr(p, p["rows"]), iarr(p, p["cols"])] = v.reshape(-1, 1)
     else:
-        M[arr(p["rows"], int), arr(p["cols"], int)] = float(p["value"])
+        M[iarr(p, p["rows"]), iarr(p, p["cols"])] = float(p["value"])
     return M
 
 
 op("write", "to_sptenmat.setitem", _do_set_sptenmat, params=_p_set_sptenmat)
+
+# ---------------------------------------------------------------- round 4: rejected requests inside write histories
+#
+# A history of 2..5 assignments of which 1..2 are requests the library rejects (it raises): values that are not a
+# column / of the wrong count / a Python list / a numpy scalar for a subscript-array assignment - with and without extra
+# subscript columns (order growth) and rows outside the shape (growth); subscript arrays with too few columns, a
+# negative entry, a float dtype; a region assignment whose right-hand side is no scalar and no sparse tensor (numpy
+# integer scalar, ndarray, None, str, dense tensor) - with and without growth; an open slice for a new mode; too few
+# keys; a linear index into a tensor of order >= 2; a sparse right-hand side whose shape does not match an index list.
+# After every rejected step the receiver is well-formed, denotes the array it denoted, has the same shape and the same
+# stored entries bit for bit (`setitem-history:after-rejected:<kind>:...`), the right-hand side operand too; the
+# valid steps that follow work on it, and at the end the tensor is, bit for bit, what the history without the rejected
+# steps leaves behind (`setitem-history:rejected-steps-are-not-no-ops`) - and, as for every operation, well-formed
+# and the same for every stored order of the receiver.  Only kinds the unchanged library rejects are generated; a
+# request that is accepted ends the history unjudged (label `not-rejected-<kind>`).
+
+
+def _extra_cols(draw, rows, g):
+    return [r + [draw(st.integers(0, 1)) for _ in range(g)] for r in rows]
+
+
+@st.composite
+def _p_rejected(draw, tier, shape, vkind, case):
+    N = len(shape)
+    own = case["a"]["subs"]
+    kinds = ["subs-bad-values"] * 4 + ["subs-bad-key", "subs-np-scalar", "region-bad-rhs", "region-bad-rhs",
+                                       "region-open-slice-new-mode", "sp-rhs-list-mismatch"]
+    if N >= 2:
+        kinds += ["region-too-few-keys", "linear-on-multiway"]
+    kind = draw(st.sampled_from(kinds))
+    if kind in ("subs-bad-values", "subs-bad-key", "subs-np-scalar"):
+        k = draw(st.integers(1, 4))
+        rows = _row_cells(draw, shape, own, k, grow=draw(st.integers(0, 2)) == 0)
+        g = draw(st.sampled_from([0, 0, 0, 1, 2]))
+        rows = _extra_cols(draw, rows, g)
+        vals = [draw(gen.values(vkind, nonzero=True)) for _ in rows]
+        if kind == "subs-bad-values":
+            forms = ["count+1", "flat", "list"] + (["row"] if k >= 2 else []) + (["count-1"] if k >= 3 else [])
+            form = draw(st.sampled_from(forms))
+            if form == "count+1":
+                vals = vals + [draw(gen.values(vkind, nonzero=True))]
+            elif form == "count-1":
+                vals = vals[:-1]
+            return dict(kind=kind, subs=rows, g=g, form=form, vals=vals)
+        if kind == "subs-np-scalar":
+            return dict(kind=kind, subs=rows, g=g, form=draw(st.sampled_from(["int64", "int32", "float32"])),
+                        vals=[float(draw(st.sampled_from([0, 1, 3])))])
+        forms = ["negative", "float"] + (["fewer-columns"] if N >= 2 else [])
+        form = draw(st.sampled_from(forms))
+        if form == "fewer-columns":
+            rows, g = [r[:N - 1] for r in rows], 0
+        elif form == "negative":
+            rows[draw(st.integers(0, k - 1))][draw(st.integers(0, N + g - 1))] = -1
+        return dict(kind=kind, subs=rows, g=g, form=form, vals=vals)
+    if kind == "region-bad-rhs":
+        rp = draw(_p_set_region(tier, shape, vkind, case))
+        rp["key"] = [k_ for k_ in rp["key"] if k_["f"] != "empty"] if False else rp["key"]
+        g = draw(st.sampled_from([0, 0, 1]))
+        extra = [dict(f="int", v=draw(st.integers(0, 1))) for _ in range(g)]
+        return dict(kind=kind, key=rp["key"] + extra, g=g,
+                    form=draw(st.sampled_from(["np-int", "np-int", "ndarray1", "none", "str", "dense"])),
+                    value=float(draw(st.sampled_from([0, 1, 3]))))
+    if kind == "region-open-slice-new-mode":
+        rp = draw(_p_set_region(tier, shape, vkind, case))
+        return dict(kind=kind, key=rp["key"] + [dict(f="full")], value=draw(st.sampled_from([0.0, 2.0])))
+    if kind == "region-too-few-keys":
+        return dict(kind=kind, key=[dict(f="int", v=draw(st.integers(0, shape[m] - 1))) for m in range(N - 1)],
+                    value=draw(st.sampled_from([0.0, 2.0])))
+    if kind == "linear-on-multiway":
+        return dict(kind=kind, index=draw(st.integers(0, ref.prod(shape) - 1)), value=draw(st.sampled_from([0.0, 2.0])))
+    # sp-rhs-list-mismatch: one index list per mode (1 in 3: reaching beyond the shape); the right-hand side has one
+    # index more / fewer than the list in one mode
+    grow = draw(st.integers(0, 2)) == 0
+    key = []
+    for s_ in shape:
+        hi = s_ + 1 if grow and draw(st.booleans()) else s_
+        key.append(dict(f="list", v=sorted(draw(st.sets(st.integers(0, hi - 1), min_size=1, max_size=hi)))))
+    rshape = [len(k_["v"]) for k_ in key]
+    m = draw(st.integers(0, N - 1))
+    rshape[m] += 1 if rshape[m] == 1 or draw(st.booleans()) else -1
+    return dict(kind=kind, key=key, rshape=rshape, rhs_nonzero=draw(st.booleans()),
+                list_as_array=draw(st.booleans()))
+
+
+def _attempt_rejected(S, q, p):
+    """issue the request; returns (exception or None, right-hand side operand or None)"""
+    kind = q["kind"]
+    rhs = None
+    if kind.startswith("subs-"):
+        n = len(q["subs"])
+        if q["form"] == "float":
+            M = np.array(q["subs"], dtype=float).reshape(n, -1)
+        else:
+            M = iarr(p, q["subs"]).reshape(n, -1)
+        if kind == "subs-np-scalar":
+            V = np.dtype(q["form"]).type(q["vals"][0])
+        elif q.get("form") == "row":
+            V = arr(q["vals"]).reshape(1, -1)
+        elif q.get("form") == "flat":
+            V = arr(q["vals"])
+        elif q.get("form") == "list":
+            V = [float(v) for v in q["vals"]]
+        else:
+            V = arr(q["vals"]).reshape(-1, 1)
+        key = M
+    elif kind == "region-bad-rhs":
+        key = _set_key(dict(p, key=q["key"]))
+        f = q["form"]
+        V = (np.int64(q["value"]) if f == "np-int" else np.array([q["value"]]) if f == "ndarray1" else None
+             if f == "none" else "x" if f == "str" else ttb.tensor(np.array([q["value"]])))
+        rhs = None
+    elif kind in ("region-open-slice-new-mode", "region-too-few-keys"):
+        key, V = _set_key(dict(p, key=q["key"])), float(q["value"])
+    elif kind == "linear-on-multiway":
+        key, V = int(q["index"]), float(q["value"])
+    else:
+        key = _set_key(dict(p, key=q["key"], list_as_array=q["list_as_array"]))
+        if q["rhs_nonzero"]:
+            V = ttb.sptensor(np.zeros((1, len(q["rshape"])), dtype=int), np.array([[2.0]]), tuple(q["rshape"]))
+        else:
+            V = ttb.sptensor(shape=tuple(q["rshape"]))
+        rhs = V
+    try:
+        S[key] = V
+    except Exception as e:  # noqa: BLE001
+        if _sut_frame(e.__traceback__) == "outside-pyttb":
+            raise
+        return e, rhs
+    return None, rhs
+
+
+@st.composite
+def _p_history(draw, tier, shape, vkind, case):
+    nsteps = draw(st.integers(2, 5))
+    nrej = draw(st.sampled_from([1, 1, 2]))
+    where = set(draw(st.lists(st.integers(0, nsteps - 1), min_size=nrej, max_size=nrej)))
+    if draw(st.integers(0, 3)):  # 3 in 4: a valid step follows the last rejected one
+        where.discard(nsteps - 1)
+        where = where or {0}
+    steps = []
+    for i in range(nsteps):
+        if i in where:
+            steps.append(dict(kind="rejected", p=draw(_p_rejected(tier, shape, vkind, case))))
+        else:
+            kind = draw(st.sampled_from(["subs", "subs", "region", "element"]))
+            sub = dict(subs=_p_set_subs, region=_p_set_region, element=_p_set_element)[kind]
+            steps.append(dict(kind=kind, p=draw(sub(tier, shape, vkind, case))))
+    return dict(steps=steps)
+
+
+def _do_history(X, p, c):
+    ctx = _CUR["ctx"]
+    S = X["a"]
+    model = ttb.sptensor(np.array(S.subs, copy=True), np.array(S.vals, copy=True), tuple(S.shape)) if S.subs.size else \
+        ttb.sptensor(shape=tuple(S.shape))
+    import warnings
+
+    for i, stp in enumerate(p["steps"]):
+        if stp["kind"] != "rejected":
+            # a valid step that grows the tensor beyond what a later step's negative index assumed: same for the model
+            with warnings.catch_warnings():
+                warnings.simplefilter("ignore")
+                _do_step(S, stp, p, c)
+                _do_step(model, stp, dict(p, idt=None), c)
+            continue
+        q = stp["p"]
+        kind = q["kind"]
+        before = _state_of(S)
+        with warnings.catch_warnings():
+            warnings.simplefilter("ignore")
+            exc, rhs = _attempt_rejected(S, q, p)
+        if exc is None:
+            ctx.label("not-rejected-" + kind)
+            raise Bad()
+        ctx.label("rejected-" + kind + ("-" + str(q["form"]) if "form" in q else ""),
+                  "rejected-then-valid" if i + 1 < len(p["steps"]) else "rejected-last",
+                  *(["rejected-request-names-new-modes"] if q.get("g") else []))
+        if not _judge_unchanged(ctx, f"setitem-history:after-rejected:{kind}", before, S):
+            raise Bad()  # (recorded) the history ends here: this run has no outcome to compare
+        if rhs is not None:
+            ok = not ref.sptensor_problems(rhs, allow_explicit_zero=True) and tuple(rhs.shape) == tuple(q["rshape"]) \
+                and rhs.nnz == (1 if q["rhs_nonzero"] else 0)
+            _once(ctx, ok, f"setitem-history:after-rejected:{kind}:right-hand-side-changed")
+    same = (tuple(int(v) for v in S.shape) == tuple(int(v) for v in model.shape)
+            and np.asarray(S.subs).shape == np.asarray(model.subs).shape and np.array_equal(S.subs, model.subs)
+            and np.asarray(S.vals).shape == np.asarray(model.vals).shape
+            and ref.same_exact(np.asarray(S.vals, dtype=float), np.asarray(model.vals, dtype=float)))
+    _once(ctx, same, "setitem-history:rejected-steps-are-not-no-ops",
+          f"shape {tuple(S.shape)} vs {tuple(model.shape)}; subs {np.asarray(S.subs).tolist()[:6]} vs "
+          f"{np.asarray(model.subs).tolist()[:6]}; vals {np.asarray(S.vals).ravel().tolist()[:6]} vs "
+          f"{np.asarray(model.vals).ravel().tolist()[:6]}")
+    return S
+
+
+op("rejected", "setitem-history", _do_history, params=_p_history, combine=True)
+
+# ---------------------------------------------------------------- round 4: ill-formed calls of the other operations
+#
+# One ill-formed argument, everything else valid and - where it can be - broadcast-compatible (a vector / factor of
+# length 1 for a longer mode, an operand whose mismatching mode has length 1): if the library raises, the sparse
+# operands are afterwards what they were (well-formed, same shape, same stored entries).  Whether the request *must*
+# be rejected is C19's question: a call that returns ends the case unjudged (label `not-rejected-<what>`).
+
+ILLFORMED = ["ttv-length", "ttv-mode", "ttm-size", "permute-repeated", "permute-short", "reshape-product",
+             "contract-unequal", "scale-length", "mttkrp-rows", "mttkrp-mode", "binary-shape",
+             "binary-shape", "extract-outside", "getitem-outside", "to_sptenmat-repeated"]
+BINARY = ["add", "sub", "mul", "eq", "lt", "logical_and", "logical_or", "innerprod", "mask", "isequal", "scale"]
+
+
+@st.composite
+def _p_illformed(draw, tier, shape, vkind, case):
+    N = len(shape)
+    what = draw(st.sampled_from(ILLFORMED))
+    d = draw(st.integers(0, N - 1))
+    out = dict(what=what, d=d)
+    if what in ("ttv-length", "scale-length"):
+        out["n"] = 1 if shape[d] > 1 and draw(st.booleans()) else shape[d] + 1
+        out["v"] = fl(draw, out["n"], vkind)
+    elif what == "ttm-size":
+        out["n"] = 1 if shape[d] > 1 and draw(st.booleans()) else shape[d] + 1
+        out["m"] = mat(draw, draw(st.integers(1, 2)), out["n"], vkind)
+    elif what == "binary-shape":
+        bs = list(shape)
+        bs[d] = 1 if shape[d] > 1 and draw(st.booleans()) else shape[d] + 1
+        out["bshape"] = bs
+        out["bop"] = draw(st.sampled_from(BINARY))
+        out["b"] = draw(entries(bs, vkind))
+    elif what in ("mttkrp-rows", "mttkrp-mode"):
+        r = draw(st.integers(1, 2))
+        rows = list(shape)
+        if what == "mttkrp-rows":
+            rows[d] = 1 if shape[d] > 1 and draw(st.booleans()) else shape[d] + 1
+        out["U"] = [mat(draw, n, r, vkind) for n in rows]
+        out["n"] = draw(st.integers(0, N - 1)) if what == "mttkrp-rows" else N
+    elif what in ("extract-outside", "getitem-outside"):
+        rows = _row_cells(draw, shape, case["a"]["subs"], draw(st.integers(1, 3)), grow=False)
+        rows[draw(st.integers(0, len(rows) - 1))][d] = shape[d] + draw(st.integers(0, 1))
+        out["subs"] = rows
+    return out
+
+
+def _illformed_call(S, q, p, c):
+    w, d, N = q["what"], q["d"], len(c["shape"])
+    if w == "ttv-length":
+        return S.ttv(arr(q["v"]), iint(p, d))
+    if w == "ttv-mode":
+        return S.ttv(np.ones(2), iint(p, N))
+    if w == "ttm-size":
+        return S.ttm(arr(q["m"]), iint(p, d))
+    if w == "permute-repeated":
+        return S.permute(iarr(p, [d] + list(range(1, N)) if d != 0 or N == 1 else [1] + list(range(1, N))) if N > 1
+                         else iarr(p, [1]))
+    if w == "permute-short":
+        return S.permute(iarr(p, list(range(N - 1)) if N > 1 else [0, 1]))
+    if w == "reshape-product":
+        return S.reshape((ref.prod(c["shape"]) + 1,))
+    if w == "contract-unequal":
+        if N >= 2 and c["shape"][d] != c["shape"][(d + 1) % N]:
+            return S.contract(iint(p, d), iint(p, (d + 1) % N))
+        return S.contract(iint(p, d), iint(p, d))
+    if w == "collapse-mode":
+        return S.collapse(iarr(p, [N]))
+    if w == "scale-length":
+        return S.scale(arr(q["v"]), iarr(p, [d]))
+    if w in ("mttkrp-rows", "mttkrp-mode"):
+        return S.mttkrp([arr(u) for u in q["U"]], iint(p, q["n"]))
+    if w in ("extract-outside", "getitem-outside"):
+        M = iarr(p, q["subs"]).reshape(len(q["subs"]), N)
+        return S.extract(M) if w == "extract-outside" else S[M]
+    if w == "to_sptenmat-repeated":
+        return S.to_sptenmat(iarr(p, [d]), iarr(p, [d] + [m for m in range(N) if m != d][1:]))
+    if w == "setitem-outside-negative":
+        S[tuple([-1] * (N - 1) + [-(c["shape"][-1] + 3)])] = 2.0
+        return None
+    raise KeyError(w)
+
+
+def _do_illformed(X, p, c):
+    ctx = _CUR["ctx"]
+    S, q = X["a"], p
+    B = None
+    before = {"a": _state_of(S)}
+    if q["what"] == "binary-shape":
+        B = build_sp(q["bshape"], q["b"])
+        before["b"] = _state_of(B)
+    try:
+        if B is not None:
+            n = q["bop"]
+            r = (ARITH[n](S, B) if n in ARITH else CMP[n](S, B) if n in CMP else S.scale(B, iarr(p, list(range(len(c["shape"])))))
+                 if n == "scale" else getattr(S, n)(B))
+            if n == "isequal" and r is False:
+                raise Bad()  # isequal of different shapes is a valid question
+        else:
+            r = _illformed_call(S, q, p, c)
+    except Bad:
+        raise
+    except Exception as e:  # noqa: BLE001
+        if _sut_frame(e.__traceback__) == "outside-pyttb":
+            raise
+        what = q["what"] + ("-" + q["bop"] if B is not None else "")
+        ctx.label("rejected-" + what)
+        _judge_unchanged(ctx, f"ill-formed-call:{what}:receiver-after-exception", before["a"], S)
+        if B is not None:
+            _judge_unchanged(ctx, f"ill-formed-call:{what}:other-operand-after-exception", before["b"], B)
+        return ("rejected",)
+    ctx.label("not-rejected-" + q["what"] + ("-" + q["bop"] if B is not None else ""))
+    raise Bad()
+
+
+op("rejected", "ill-formed-call", _do_illformed, params=_p_illformed)
+
+
+
+def _do_sptenmat_rejected(X, p, c):
+    """M[key] = v with a key that is no pair (a bare index, three indices): rejected; M stays what it was; then the
+    valid assignment of `to_sptenmat.setitem`"""
+    ctx = _CUR["ctx"]
+    M = X["a"].to_sptenmat(**_kw(p))
+    before = (np.array(M.subs, copy=True), np.array(M.vals, copy=True), tuple(M.tshape), list(M.rdims), list(M.cdims))
+    for key in ((p["rows"][0],) * 3, p["rows"][0]) if p["bad"] == "both" else (((p["rows"][0],) * 3,) if p["bad"] == "three"
+                                                                                  else (p["rows"][0],)):
+        try:
+            M[key] = 2.0
+        except Exception as e:  # noqa: BLE001
+            if _sut_frame(e.__traceback__) == "outside-pyttb":
+                raise
+        else:
+            ctx.label("not-rejected-sptenmat-key")
+            raise Bad()
+        probs = sptenmat_problems(M, allow_explicit_zero=True)
+        same = not probs and np.array_equal(M.subs, before[0]) and np.asarray(M.subs).shape == before[0].shape and \
+            np.array_equal(M.vals, before[1]) and tuple(M.tshape) == before[2] and list(M.rdims) == before[3] and \
+            list(M.cdims) == before[4]
+        if not _once(ctx, same, "sptenmat-setitem-rejected:receiver-changed", str(probs)):
+            raise Bad()
+    if p["form"] == "element":
+        M[p["rows"][0], p["cols"][0]] = float(p["value"])
+    else:
+        M[iarr(p, p["rows"]), iarr(p, p["cols"])] = float(p["value"])
+    return M
+
+
+@st.composite
+def _p_sptenmat_rejected(draw, tier, shape, vkind, case):
+    return dict(draw(_p_set_sptenmat(tier, shape, vkind, case)), bad=draw(st.sampled_from(["three", "bare", "both"])))
+
+
+op("rejected", "sptenmat-setitem-rejected", _do_sptenmat_rejected, params=_p_sptenmat_rejected)
 
 # ---------------------------------------------------------------- further public operations on a sparse operand
 
@@ -1456,6 +1922,24 @@ def family_case(draw, tier, fam):
         for k in O.keys:
             if draw(st.integers(0, 3)) == 0:
                 case[k]["npshape"] = True
+    # round 4: float data held in single precision (values that a float32 holds exactly, so the operand denotes the same
+    # array; accumulations are then judged with a single-precision bound)
+    if vkind == "float" and O.build is None and not extreme and vscale != 1e-12 and draw(st.integers(0, 5)) == 0:
+        for k in O.keys:
+            case[k]["vals"] = [float(np.float32(v)) for v in case[k]["vals"]]
+            if draw(st.integers(0, 3)) > 0:
+                case[k]["dtype"] = "float32"
+    # round 4: the same operands / index arguments in another presentation, the same call with the root logger at DEBUG
+    for k in O.keys:
+        if draw(st.integers(0, 2)) == 0:
+            case[k]["pres"] = draw(presentation(len(_shape_of_key(O, case, k))))
+    if draw(st.integers(0, 3)) == 0:
+        case["idt"] = draw(st.sampled_from(["int32", "int32", "uint8", "uint16", "uint64", "int16", "list", "tuple",
+                                            "bare-int"]))
+    if draw(st.integers(0, 5)) == 0:
+        case["env"] = "debug-log"
+    if draw(st.integers(0, 3)) == 0:
+        case["strided_args"] = True
     orders = {}
     for k in O.keys:
         orders[k] = draw(orders_for(len(case[k]["subs"])))
@@ -1506,6 +1990,73 @@ def _alias_round(ctx, name, X, r):
     live.edit_all()
 
 
+_CUR["ctx"] = None
+
+
+def _debug_logging():
+    """the process of a caller who debugs: root logger at DEBUG with a handler that drops the records, no
+    logging.disable() in force (core.evaluate silences logging that way)"""
+    root = logging.getLogger()
+    env = (root.level, root.manager.disable, logging.NullHandler())
+    root.addHandler(env[2])
+    root.setLevel(logging.DEBUG)
+    logging.disable(logging.NOTSET)
+    return env
+
+
+def _restore_logging(env):
+    if env is not None:
+        root = logging.getLogger()
+        root.removeHandler(env[2])
+        root.setLevel(env[0])
+        logging.disable(env[1])
+
+
+def _state_of(S):
+    """what a sparse tensor is, read from its attributes (copies)"""
+    return (tuple(int(v) for v in S.shape), np.array(S.subs, copy=True), np.array(S.vals, copy=True))
+
+
+def _judge_unchanged(ctx, clause, before, S, strict=True):
+    """after a rejected request: S is well-formed, denotes the array it denoted before (`values-changed`), has the
+    shape it had (`shape-changed`) and the stored entries it had, bit for bit (`storage-changed`).  Returns False
+    when S cannot be used any further."""
+    shape0, subs0, vals0 = before
+    if ref.prod(shape0) > 10**6 or subs0.shape[0] > FAST_ABOVE:  # large / huge operands: the storage itself
+        same = (tuple(int(v) for v in S.shape) == shape0 and np.asarray(S.subs).shape == subs0.shape
+                and np.array_equal(S.subs, subs0) and np.asarray(S.vals).shape == vals0.shape
+                and np.array_equal(S.vals, vals0, equal_nan=True))
+        return _once(ctx, same, clause + ":storage-changed", "large operand")
+    probs = ref.sptensor_problems(S, allow_explicit_zero=True)
+    if probs:
+        _malformed(ctx, clause, probs, S)
+        return False
+    shape1 = tuple(int(v) for v in S.shape)
+    D0 = np.zeros(shape0)
+    for r_, v in zip(subs0.reshape(-1, len(shape0)) if subs0.size else [], vals0.reshape(-1)):
+        D0[tuple(int(i) for i in r_)] = v
+    D1 = ref.den(S)
+    # the same array: the old array is the leading block of the new one (first index of every new mode) and nothing
+    # else is stored - a changed shape alone is reported as `shape-changed`
+    same_vals = len(shape1) >= len(shape0) and all(a <= b for a, b in zip(shape0, shape1))
+    if same_vals:
+        block = tuple(slice(0, n) for n in shape0) + (0,) * (len(shape1) - len(shape0))
+        same_vals = ref.same_exact(np.asarray(D1[block], dtype=float).reshape(shape0), D0) and \
+            np.count_nonzero(D1) == np.count_nonzero(D0)
+    if not _once(ctx, same_vals, clause + ":values-changed", f"shape {shape0} -> {shape1}; {_brief(D0)} -> {_brief(D1)}"):
+        return False
+    if not _once(ctx, shape1 == shape0, clause + ":shape-changed", f"{shape0} -> {shape1}"):
+        return False
+    if strict:
+        same = (np.asarray(S.subs).shape == subs0.shape and np.array_equal(S.subs, subs0)
+                and np.asarray(S.vals).shape == vals0.shape and S.vals.dtype == vals0.dtype
+                and ref.same_exact(np.asarray(S.vals, dtype=float), np.asarray(vals0, dtype=float)))
+        _once(ctx, same, clause + ":storage-changed",
+              f"subs {subs0.tolist()[:6]} -> {np.asarray(S.subs).tolist()[:6]}; vals {vals0.ravel().tolist()[:6]} -> "
+              f"{np.asarray(S.vals).ravel().tolist()[:6]}")
+    return True
+
+
 def _run(ctx, case):
     O = OPS[case["op"]]
     name = O.name
@@ -1521,17 +2072,59 @@ def _run(ctx, case):
     base_combo = None
     nrun = 0
     ok_runs = 0
-    for combo in combos(case, list(O.keys)):
-        X = {k: (O.build or build_sp)(_shape_of_key(O, case, k), case[k], combo[k]) for k in O.keys}
+    _CUR["ctx"] = ctx
+    runs = combos(case, list(O.keys))
+    # round 4 (presentation): the first run gets every operand and argument in the library's favourite form (int64
+    # subscripts, C-contiguous, tuple of ints); later runs get operand a (odd runs) / operand b (runs 2, 3 mod 4) and
+    # the index arguments (odd runs) in the generated other presentation.  (environment): odd runs execute with the
+    # root logger at DEBUG.  Any difference between two runs is a violation, whichever of order / presentation /
+    # environment caused it.
+    has_alt = any(case[k].get("pres") for k in O.keys) or bool(case.get("idt")) or bool(case.get("env")) or \
+        bool(case.get("strided_args"))
+    if has_alt and len(runs) < 4:
+        runs = (runs * 4)[:4 if len(O.keys) == 2 else 2]
+    if has_alt:
+        ctx.label(*["subs-" + case[k]["pres"]["subs_dtype"] for k in O.keys if case[k].get("pres")],
+                  *["via-coo" for k in O.keys if (case[k].get("pres") or {}).get("via") == "coo"
+                    and len(_shape_of_key(O, case, k)) == 2],
+                  *["layout-" + case[k]["pres"]["layout"] for k in O.keys if case[k].get("pres")],
+                  *(["index-args-" + case["idt"]] if case.get("idt") else []),
+                  *(["env-" + case["env"]] if case.get("env") else []),
+                  *(["strided-read-only-args"] if case.get("strided_args") else []))
+    for irun, combo in enumerate(runs):
+        alt = {k: bool(case[k].get("pres")) and bool(irun >> j & 1) for j, k in enumerate(O.keys)}
+        if O.build is not None:  # raw (subscripts, values) for from_aggregator / sptenmat(): the subscript dtype
+            X = {k: O.build(_shape_of_key(O, case, k), case[k], combo[k]) for k in O.keys}
+            for k in O.keys:
+                if alt[k] and isinstance(X[k], tuple):
+                    X[k] = (X[k][0].astype(case[k]["pres"]["subs_dtype"]), X[k][1])
+        else:
+            X = {k: build_sp(_shape_of_key(O, case, k), case[k], combo[k], alt=alt[k]) for k in O.keys}
+        p_run = dict(case["p"], alt=True, idt=case.get("idt")) if irun & 1 else case["p"]
+        snap = {k: _state_of(x) for k, x in X.items() if isinstance(x, ttb.sptensor)}
         nrun += 1
+        env = _debug_logging() if case.get("env") == "debug-log" and irun & 1 else None
+        _CUR["strided"] = bool(case.get("strided_args")) and bool(irun & 1)
         try:
-            r = O.call(X, case["p"], case)
+            r = O.call(X, p_run, case)
+        except Bad:
+            _restore_logging(env)
+            _CUR["strided"] = False
+            continue
         except Exception as e:  # noqa: BLE001
+            _restore_logging(env)
+            _CUR["strided"] = False
             frame = _sut_frame(e.__traceback__)
             if frame == "outside-pyttb":
                 raise
             out = ("raises", type(e).__name__, frame, str(e)[:160])
+            # round 4 (state after a rejected request): whatever an operation does on its way to an exception, the
+            # operands the caller still holds are what they were - well-formed, same shape, same stored entries
+            for k, before in (snap.items() if name not in ("setitem-sequence", "setitem-history") else ()):
+                _judge_unchanged(ctx, f"{name}:operand-{k}-after-exception", before, X[k])
         else:
+            _restore_logging(env)
+            _CUR["strided"] = False
             try:
                 out = ("value", summarize(ctx, O, r))
                 ok_runs += 1
@@ -1871,6 +2464,7 @@ BUDGET = {
     "read": (500, 10000),
     "holder": (200, 4000),
     "write": (700, 14000),
+    "rejected": (170, 1700),
     "io": (60, 1000),
 }
 
@@ -2002,7 +2596,44 @@ def _common_quotient_zero(case):
         return any(np.float64(a[k]) / np.float64(b[k]) == 0 for k in set(a) & set(b))
 
 
+def _rejected_steps(case):
+    return [st_["p"] for st_ in (_full(case).get("p") or {}).get("steps", []) if st_.get("kind") == "rejected"]
+
+
+def _region_reaches_beyond(case, q):
+    if q.get("g"):
+        return True
+    for k, n in zip(q["key"], case["shape"]):
+        v = k.get("v")
+        top = None if v is None else (v if isinstance(v, int) else (v[1] - 1 if k["f"] in ("slice", "step", "empty") else max(v)))
+        if top is not None and top >= n:
+            return True
+    return False
+
+
+def _unsigned_subscripts(case):
+    """some operand's subscripts or the index arguments are presented in an unsigned integer dtype"""
+    c = _full(case)
+    for k in ("a", "b"):
+        pres = (c.get(k) or {}).get("pres")
+        if pres and pres["subs_dtype"].startswith("u") and not (pres["via"] == "coo" and len(c[k]["subs"][:1] and c[k]["subs"][0]) == 2):
+            return True
+    return str(c.get("idt") or "").startswith("u")
+
+
 PREDICATES = {
+    # round 4: a rejected S[M] = V with extra subscript columns leaves the tensor with the grown order
+    "rejected_subs_names_new_modes": lambda c: any(
+        q["kind"] in ("subs-bad-values", "subs-np-scalar") and q.get("g") for q in _rejected_steps(c)),
+    # round 4: a rejected S[R1..Rn] = <no scalar, no sptensor> leaves the tensor resized to the region
+    "rejected_region_reaches_beyond_shape": lambda c: any(
+        q["kind"] == "region-bad-rhs" and _region_reaches_beyond(_full(c), q) for q in _rejected_steps(c)),
+    # round 4: S[i,..] = negative value into a uint8-valued tensor: NumPy refuses the value after the tensor was resized
+    "negative_into_uint8": lambda c: _full(c)["a"].get("dtype") == "uint8" and float(_full(c)["p"].get("value", 0)) < 0,
+    # round 4: mode lists / mode numbers given in uint64
+    "uint64_mode_args": lambda c: _full(c).get("idt") == "uint64",
+    # round 4: subscripts kept in the caller's unsigned dtype
+    "unsigned_subscripts": _unsigned_subscripts,
     # S/T and S/S2 do not drop a quotient that underflows to exactly zero
     "quotient_zero_at_a": _quotient_zero_at_a,
     "common_quotient_zero": _common_quotient_zero,
